@@ -29,15 +29,15 @@ def replay_instances(ctx):
     q = ctx.tier != "thorough"
     out = [
         # three addresses, every batch, finite / connected class
-        ("a3", {"Addrs": A3, "TTLs": "{0, 2, 8}", "Conn": 8, "Seqs": "{1, 2}", "Cap": 0, "MaxBatch": 3}, 40, 250 if q else 2000, 60),
+        ("a3", {"Addrs": A3, "TTLs": "{0, 2, 8}", "Conn": 8, "Seqs": "{1, 2}", "Cap": 0, "MaxBatch": 3}, 40, 150 if q else 2000, 60),
         # two addresses, two finite classes, connected and permanent
-        ("a2", {"Addrs": A2, "TTLs": "{0, 2, 4, 8, 9}", "Conn": 8, "Seqs": "{1, 2}", "Cap": 0, "MaxBatch": 2}, 40, 250 if q else 2000, 60),
+        ("a2", {"Addrs": A2, "TTLs": "{0, 2, 4, 8}" if q else "{0, 2, 4, 8, 9}", "Conn": 8, "Seqs": "{1, 2}", "Cap": 0, "MaxBatch": 2}, 40, 150 if q else 2000, 60),
         # binding per-peer cap, one-address calls, connected class included
         ("cap", {"Addrs": A3, "TTLs": "{0, 2, 8}", "Conn": 8, "Seqs": "{1, 2}", "Cap": 2, "MaxBatch": 1}, 40, 150 if q else 1000, 60),
         # binding cap, ORDERED batches of up to two addresses (refreshed-existing then new, new then
         # existing, two new) with two finite classes so that the nearest expiry is unique
         ("capo", {"Addrs": A3, "TTLs": "{0, 2, 3}" if q else "{0, 2, 3, 8}", "Conn": 8, "Seqs": "{1}", "Cap": 2, "MaxBatch": 2},
-         40, 250 if q else 1000, 60),
+         40, 150 if q else 1000, 60),
     ]
     if not q:
         # three addresses, two finite classes; singletons and the full set (221 688 transitions)
@@ -149,7 +149,7 @@ def _edges(args):
     g = graph.Graph(r.inits, r.edges)
     if g.n_edges() == 0:
         raise MachineryError("no edges printed for " + tag)
-    walks = covering_walks(g, ctx.seed, max_len, max_blind=2 if (ctx.tier != "thorough" or g.n_edges() > 200000) else 4)
+    walks = covering_walks(g, ctx.seed, max_len, max_blind=1 if ctx.tier != "thorough" else (2 if g.n_edges() > 200000 else 4))
     n_cov = len(walks)
     for w in g.random_walks(n_rand, depth, seed=ctx.seed * 31 + 7):
         k = next((i for i, st in enumerate(w["steps"]) if st["op"].get("tie")), None)
